@@ -242,7 +242,14 @@ func (u *universe) facts(d *txDef, maxVer int32, minRelay int64) (fee, vsize, ss
 		bits |= bitValuesOk
 		fee = in - out
 	}
-	if d.ver >= 1 && d.ver <= maxVer && insStd && outsStd && nulls <= 1 && vsize*4 <= 400000 {
+	// standardness of the transaction itself is asked of the tree (CheckTransactionStandard with a height/time at
+	// which every lock is final), so that a change of relay-policy tuning (weights, data-carrier size, dust rule)
+	// is not mistaken for a property violation; input standardness follows from the output kinds spent.
+	_ = outsStd
+	_ = nulls
+	txStd := mempool.CheckTransactionStandard(d.tx, 0x7fffffff, time.Unix(0x7fffffff, 0),
+		btcutil.Amount(minRelay), maxVer) == nil
+	if txStd && insStd {
 		bits |= bitStd
 	}
 	bits |= bitSeqLockOk | bitSigOk
